@@ -70,19 +70,53 @@ def isListKey : Key → Bool
   | .range | .corr | .labeloff => true
   | _ => false
 
+/-! `regex_meta`, first alternative, on one `key=<raw>,` item whose raw text contains no comma,
+bracket or `=` (so that nothing spills into the neighbouring items):
+`(\w+)\s*=[\s'"]*([^,\[\]]+?)['",]+` — the run of blanks/quotes after `=` is skipped, the value
+runs up to the NEXT quote character or comma, and is `strip()`ped.  Quotes are therefore not
+delimiters that pair up: `label='beam 3.5"'` gives `beam 3.5`, `label='it's'` gives `it`. -/
+
+def isQS (c : Char) : Bool := c == ' ' || c == '\t' || c == '\'' || c == '"'
+
+def isTerm (c : Char) : Bool := c == '\'' || c == '"' || c == ','
+
+def isBlank (c : Char) : Bool := c == ' ' || c == '\t'
+
+/-- `str.strip()` (blanks and tabs). -/
+def pyStrip (l : List Char) : List Char := ((l.dropWhile isBlank).reverse.dropWhile isBlank).reverse
+
+/-- the value `regex_meta` extracts from `key=<raw>,`; `none`: the item is not matched at all. -/
+def lexScalarChars (raw : List Char) : Option (List Char) :=
+  match raw.dropWhile isQS with
+  | [] =>
+    -- only blanks/quotes before the comma: the regex backtracks and takes the last one as the value
+    match (raw.takeWhile isQS).getLast? with
+    | some c => some (pyStrip [c])
+    | none => none
+  | rest => some (pyStrip (rest.takeWhile fun c => !isTerm c))
+
+def Quote.chars : Quote → List Char
+  | .none => [] | .single => ['\''] | .double => ['"']
+
+/-- what `regex_meta` sees of a token. -/
+def MTok.lexed : MTok → Option MTok
+  | .scalar s q =>
+    (lexScalarChars (q.chars ++ s.toList ++ q.chars)).map fun v => .scalar (String.ofList v) .none
+  | .list l => some (.list l)
+
 /-- the value stored for `key = tok`. -/
-def tokValue (isGlobal : Bool) (k : Key) : MTok → MVal
-  | .scalar s _ => if isListKey k then .strs [s] else .str s
-  | .list l =>
+def tokValue (isGlobal : Bool) (k : Key) (t : MTok) : MVal :=
+  match t.lexed with
+  | some (.scalar s _) => if isListKey k then .strs [s] else .str s
+  | some (.list l) =>
     if isListKey k then
       -- `val2.split(',')`; global: `[x.strip() for x in val2 if x]`, inline: no filter
       .strs (if isGlobal then l.filter (· ≠ "") else if l.isEmpty then [""] else l)
     else .str (", ".intercalate l)
+  | none => .str ""
 
-/-- `regex_meta` needs a non-empty value: `key=` is not an item. -/
-def MTok.isEmptyScalar : MTok → Bool
-  | .scalar s _ => s = ""
-  | .list _ => false
+/-- `regex_meta` needs a value: `key=` (nothing before the comma) is not an item. -/
+def MTok.isEmptyScalar (t : MTok) : Bool := t.lexed.isNone
 
 /-- the key of an item: global keys are lower-cased, inline keys are not. -/
 def itemKey (isGlobal : Bool) (k : String) : Key := Key.ofString (if isGlobal then k.toLower else k)
